@@ -32,29 +32,55 @@ var propIPs = [][]byte{{198, 51, 100, 1}, {198, 51, 100, 2}, {198, 51, 100, 3}, 
 
 // realSelect runs the repository's selection (Wrs.Add per candidate in order,
 // then Wrs.ARecord) with the scripted draws; returns the index served, -1 if none.
-func realSelect(vec []uint32, draws []uint32) int {
+//
+// Whatever the code under test does here is a verdict, never an infrastructure
+// error: a panic or an error of Add/ARecord serves nothing (-3: the candidate
+// is then "served too rarely"), and a selection that does not take exactly one
+// draw per candidate is recorded in offGrid: the grid over n draws then does not
+// describe its probabilities, which is reported as such (propUnit).
+func realSelect(vec []uint32, draws []uint32) (sel int) {
 	src.load(draws)
+	defer func() {
+		if p := recover(); p != nil {
+			sel = -3
+			if offGrid.what == "" {
+				offGrid = offGridInfo{fmt.Sprintf("panic: %v", p), append([]uint32(nil), vec...), append([]uint32(nil), draws...)}
+			}
+		}
+	}()
 	w := db.Wrs{MaxAnswers: 1}
 	for j, wt := range vec {
 		if err := w.Add(db.ResourceRecord{Weight: wt, Qtype: dns.TypeA, TTL: 60}, propIPs[j]); err != nil {
-			vlib.Infra("Wrs.Add: %v", err)
+			return -3
 		}
 	}
 	rrs, err := w.ARecord("p.example.com.", dns.ClassINET)
 	if err != nil {
-		vlib.Infra("Wrs.ARecord: %v", err)
+		return -3
 	}
-	if src.taken() != len(vec) {
-		vlib.Infra("Wrs took %d draws for %d candidates with MaxAnswers=1: the scripted source no longer addresses the draws as the code sees them", src.taken(), len(vec))
+	if src.taken() != len(vec) && offGrid.what == "" {
+		offGrid = offGridInfo{fmt.Sprintf("%d draws taken for %d candidates with MaxAnswers=1", src.taken(), len(vec)), append([]uint32(nil), vec...), append([]uint32(nil), draws...)}
 	}
 	switch len(rrs) {
 	case 0:
 		return -1
 	case 1:
-		return int(rrs[0].(*dns.A).A.To4()[3]) - 1
+		if a, ok := rrs[0].(*dns.A); ok && a.A.To4() != nil {
+			return int(a.A.To4()[3]) - 1
+		}
+		return -3
 	}
 	return -2 // more than one record with MaxAnswers=1
 }
+
+// the first evaluation in which the real selection left the model the grid is built on (one draw per candidate)
+type offGridInfo struct {
+	what  string
+	vec   []uint32
+	draws []uint32
+}
+
+var offGrid offGridInfo
 
 // harness-side wrong rules: the bracket test must reject each of them (the oracle has teeth)
 func ruleSelect(key func(u float64, w uint32) float64) selector {
@@ -166,13 +192,23 @@ func vecText(vec []uint32) string {
 }
 
 type propStats struct {
-	evals, cells, vectors, crossEvals int64
-	maxWidth                          [4]float64 // by n
+	evals, cells, vectors, crossEvals, offGrid, crossSkipped int64
+	maxWidth                                                 [4]float64 // by n
 }
 
 // propUnit checks one (weight vector, candidate) on the real selection.
 func propUnit(r *vlib.Run, vec []uint32, i, logN int, st *propStats) {
+	offGrid = offGridInfo{}
 	b := bracketOf(vec, i, logN, realSelect)
+	if offGrid.what != "" {
+		// (on the unchanged tree: never) the bracket below is still computed and judged, but it no longer bounds the
+		// probabilities, so the proportionality clause is not established for this vector: reported, not assumed
+		st.offGrid++
+		r.Violate(fmt.Sprintf("prop/selection-off-grid/w=%s", vecText(vec)),
+			fmt.Sprintf("weights %s: the real Wrs.Add/ARecord does not take exactly one draw per candidate (%s; first seen with draws %v): the grid over %d draws does not bound its probabilities, so P(served) = w_i/sum(w) cannot be established for this weight vector",
+				vecText(vec), offGrid.what, offGrid.draws, len(vec)),
+			map[string]interface{}{"part": "prop", "weights": vec, "candidate": i, "logN": logN})
+	}
 	st.evals += 2 * b.cells
 	st.cells += b.cells
 	if w := b.width(); w > st.maxWidth[len(vec)] {
@@ -257,16 +293,37 @@ func propCross(r *vlib.Run, vec []uint32, logN int, st *propStats) {
 	}
 	w := getWorld(set, dnsfix.CDB)
 	s := slot{"answer", 4}
+	w.pins++
+	defer func() { w.pins-- }()
 	rows := w.drawRows(s, "")
-	if len(rows) != len(vec) {
-		vlib.Infra("cross-check: %d rows for %d candidates", len(rows), len(vec))
-	}
+	nk, aligned := w.keyDraws(s, "")
+	usable := aligned && nk == len(vec) && len(rows) == len(vec)
 	rowVec := make([]uint32, len(rows))
 	for j, rw := range rows {
 		if rw.Cand < 0 || rw.W != vec[rw.Cand] {
-			vlib.Infra("cross-check: row %d does not map to a candidate (%+v)", j, rw)
+			usable = false
+			break
 		}
 		rowVec[j] = rw.W
+	}
+	if !usable {
+		// (on the unchanged tree: never) the store's reader does not enumerate one row per declared record, or the
+		// handler does not take one draw per row: there is no row order to compare selections in. The responses
+		// themselves are judged (every draw sequence, maxAnswer 1 and 8) like those of part 1.
+		st.crossSkipped++
+		enumerate(w, s, "", []int{1, 8}, false, func(m int, keys, _ []uint32, _ bool, o observation) bool {
+			st.crossEvals++
+			for _, kind := range o.Kinds {
+				fp := fmt.Sprintf("prop/serve-path/%s/w=%s", kind, vecText(vec))
+				if !r.Has(fp) {
+					r.Violate(fp, fmt.Sprintf("weights %s draws (in the order taken) %v maxAnswer %d: clause %q violated; want %d address(es), got %v; rcode %s (the reader enumerates %d rows and the handler takes %d key draws for %d declared records, so the served row cannot be compared with the direct selection)\n%s",
+						vecText(vec), keys, m, kind, o.Want, o.Addrs, o.Rcode, len(rows), nk, len(vec), o.canon()),
+						map[string]interface{}{"part": "e2e-misaligned", "kind": kind, "set": set, "backend": dnsfix.CDB.String(), "section": s.Sect, "family": s.Fam, "client_location": "", "max_answer": m, "draws": append([]uint32(nil), keys...)})
+				}
+			}
+			return true
+		})
+		return
 	}
 	n := len(vec)
 	N := 1 << logN
